@@ -156,8 +156,9 @@ class Prop:
             return [[[net_to_val(n), mx, a] for n, mx, a in c['vrps']], [[sl, k, list(l)] for sl, k, l in c['steps']],
                     [[net_to_val(n), la, [[cd, list(b)] for cd, b in at]] for n, la, at in c['routes']]]
         if c.get('kind') == 'api':
+            paths = c.get('paths') or [(k % 250, 0) for k in range(len(c['routes']))]
             return [[[net_to_val(n), mx, a] for n, mx, a in c['vrps']],
-                    [[net_to_val(n), la, [[cd, list(b)] for cd, b in at]] for n, la, at in c['routes']]]
+                    [[net_to_val(n), la, [[cd, list(b)] for cd, b in at], pp[0], pp[1]] for (n, la, at), pp in zip(c['routes'], paths)]]
         return [op_to_val(o) for o in c['ops']]
     def case_to_coq(self, c):
         if c.get('kind') == 'pol':
@@ -504,8 +505,63 @@ class Prop:
             [((6, tuple([0x20, 1] + [0] * 14), 32), 65000, SQ(65001)), ((4, (10, 1, 0, 0), 16), 65000, SQ(65001)),
              ((4, (11, 1, 0, 0), 16), 65000, SQ(65001))])
         api('api_empty_table', [], [((4, (10, 1, 0, 0), 16), 65000, SQ(65001)), ((6, tuple([0] * 16), 0), 65000, [])])
+        cases += self.enumerated_multipath_cases()
         cases += self.enumerated_policy_cases()
         return cases
+
+    def enumerated_multipath_cases(self):
+        """(m) the API annotation is per PATH: 2-4 paths on one prefix (different peers, or one peer with Add-Path ids)
+        in every order, crossing every origin derivation (sources with different local AS, the local source) and states"""
+        P = (4, (10, 1, 0, 0), 16)
+        P6 = (6, tuple([0x20, 1, 0xd, 0xb8] + [0] * 12), 32)
+        # (name, local AS of the source, attributes, peer); one peer per local AS except where noted
+        D = [('seq_tail_local_as', 65000, [(2, aspath_bytes([(SEQ, [65009, 65000])]))], 0),
+             ('seq_tail_other_as', 65000, [(2, aspath_bytes([(SEQ, [65001])]))], 1),
+             ('set_tail', 65000, [(2, aspath_bytes([(SEQ, [65001]), (1, [65000, 65005])]))], 2),
+             ('set_only', 65000, [(2, aspath_bytes([(1, [65000])]))], 3),
+             ('empty_path', 65000, [(1, []), (2, [])], 4),
+             ('absent_as_path', 65000, [(1, [])], 5),
+             ('confed_seq_tail', 65000, [(2, aspath_bytes([(SEQ, [65001]), (3, [65002])]))], 6),
+             ('confed_set_tail', 65000, [(2, aspath_bytes([(4, [65001])]))], 7),
+             ('empty_path_other_local_as', 65009, [(2, [])], 8),
+             ('absent_other_local_as', 65001, [], 9),
+             ('local_source', 0, [], 255)]
+        out = []
+        def add(cls, vrps, sel, net=P, addpath=False):
+            routes, paths = [], []
+            for j, d in enumerate(sel):
+                routes.append((net, d[1], d[2]))
+                if addpath and d[3] != 255:
+                    # one session per local AS, the paths told apart by their Add-Path id
+                    paths.append(({65000: 20, 65009: 21, 65001: 22}[d[1]], j + 1))
+                else:
+                    paths.append((d[3], 0))
+            out.append({'kind': 'api', 'cls': cls, 'vrps': vrps, 'routes': routes, 'paths': paths})
+        vsets = [[(P, 16, 65000)], [(P, 24, 65001), ((4, (10, 0, 0, 0), 8), 8, 65000)]]
+        for vi, vr in enumerate(vsets):
+            for a, b in itertools.permutations(D, 2):
+                add('multipath_2_peers_vrps%d' % vi, vr, [a, b])
+            for a, b in itertools.permutations([d for d in D if d[3] != 255], 2):
+                if vi == 0: add('multipath_2_addpath', vr, [a, b], addpath=True)
+        triples = [(D[4], D[2], D[0]), (D[5], D[3], D[8]), (D[10], D[4], D[9]), (D[6], D[7], D[1])]
+        for t in triples:
+            for perm in itertools.permutations(t):
+                add('multipath_3_peers', vsets[0], list(perm))
+        quads = [(D[4], D[2], D[8], D[10]), (D[5], D[3], D[0], D[6])]
+        for q in quads:
+            for perm in itertools.permutations(q):
+                add('multipath_4_peers', vsets[0], list(perm))
+            for perm in itertools.permutations([d for d in q if d[3] != 255]):
+                add('multipath_addpath_ids', vsets[0], list(perm), addpath=True)
+        add('multipath_all_derivations', vsets[0], D)
+        add('multipath_all_derivations', vsets[1], D[::-1])
+        add('multipath_all_derivations_ipv6', [(P6, 32, 65000)], D, net=P6)
+        add('multipath_family_without_vrp', [(P, 16, 65000)], [D[4], D[2], D[0]], net=P6)
+        # the same path set spread over two prefixes: one destination must not leak into the other
+        out.append({'kind': 'api', 'cls': 'multipath_two_prefixes', 'vrps': vsets[0],
+                    'routes': [(P, 65000, D[4][2]), ((4, (10, 1, 0, 0), 17), 65000, D[2][2]), (P, 65000, D[2][2]), ((4, (10, 1, 0, 0), 17), 65000, D[4][2])],
+                    'paths': [(4, 0), (2, 0), (2, 0), (4, 0)]})
+        return out
 
     def enumerated_policy_cases(self):
         """(l) the hand-over of the table to policy evaluation: every kind of assignment history on the
@@ -662,7 +718,10 @@ class Prop:
         for c, o in zip(cases, r):
             if c.get('kind') == 'api' and o != [-1]:
                 # what collect_paths shows of each validate result: state, reason and the sizes of the lists
-                o = [[[[v[0], v[1], len(v[2]), len(v[3]), len(v[4])] for v in ob[0]]] for ob in o[len(c['vrps']):]]
+                shown = [[[[v[0], v[1], len(v[2]), len(v[3]), len(v[4])] for v in ob[0]]] for ob in o[len(c['vrps']):]]
+                paths = c.get('paths') or [(k % 250, 0) for k in range(len(c['routes']))]
+                # every path is listed by the Global view and by the Adj-In view of its peer (none for the local source)
+                o = [[g, ([] if pp[0] == 255 else g)] for g, pp in zip(shown, paths)]
             out.append(o)
         return out, ''
 
@@ -742,23 +801,29 @@ class Prop:
         fails = []
         names = ['NotFound', 'Valid', 'Invalid']
         vset = {vrp_key(n[0], n[1], n[2], mx, a, 0) for n, mx, a in c['vrps']}
-        for k, ((route, local, attrs), ob) in enumerate(zip(c['routes'], obs)):
-            if ob == []:
-                fails.append((k, 'api', 'route %d is not listed by collect_paths' % k)); continue
+        paths = c.get('paths') or [(k % 250, 0) for k in range(len(c['routes']))]
+        for k, ((route, local, attrs), obv) in enumerate(zip(c['routes'], obs)):
             vr = [x for x in vset if x[0] == route[0]]
             if any(not canonical((x[0], x[1], x[2])) for x in vr): continue
             origin = origin_rfc6811(local, attrs)
             if origin[0] == 'malformed': continue
             st, matched, unm = validate_spec(vr, route, origin)
-            if ob[0] == []:
-                fails.append((k, 'family-empty' if not vr else 'api',
-                              'route %d (%s/%d): the API shows no validation state; RFC 6811 state is %s' % (k, '.'.join(map(str, route[1])), route[2], names[st])))
-                continue
-            v = ob[0][0]
-            if v[0] != st:
-                fails.append((k, 'api', 'route %d (%s/%d): the API shows %s, RFC 6811 requires %s' % (k, '.'.join(map(str, route[1])), route[2], names[v[0]], names[st])))
-            elif v[2] != len(matched) or v[3] + v[4] != len(unm):
-                fails.append((k, 'api', 'route %d: the API lists %d matched / %d unmatched VRPs, RFC 6811 gives %d / %d' % (k, v[2], v[3] + v[4], len(matched), len(unm))))
+            who = 'path %d (%s/%d from %s, path id %d, origin %s)' % (
+                k, '.'.join(map(str, route[1])), route[2], 'the local source' if paths[k][0] == 255 else 'peer %d' % paths[k][0], paths[k][1],
+                origin[1] if origin[0] == 'as' else 'NONE')
+            for view, ob in (('Global', obv[0]), ('Adj-In', obv[1])):
+                if view == 'Adj-In' and paths[k][0] == 255: continue
+                if ob == []:
+                    fails.append((k, 'api', '%s is not listed by collect_paths (%s view)' % (who, view))); continue
+                if ob[0] == []:
+                    fails.append((k, 'family-empty' if not vr else 'api',
+                                  '%s: the API (%s view) shows no validation state; RFC 6811 state is %s' % (who, view, names[st])))
+                    continue
+                v = ob[0][0]
+                if v[0] != st:
+                    fails.append((k, 'api', '%s: the API (%s view) shows %s, RFC 6811 requires %s for this path' % (who, view, names[v[0]], names[st])))
+                elif v[2] != len(matched) or v[3] + v[4] != len(unm):
+                    fails.append((k, 'api', '%s: the API (%s view) lists %d matched / %d unmatched VRPs, RFC 6811 gives %d / %d' % (who, view, v[2], v[3] + v[4], len(matched), len(unm))))
         return fails
 
     POLICY_NAMES = ['rpki not-found -> accept', 'rpki valid -> accept', 'rpki invalid -> accept', 'plain-med', 'plain-lp']
@@ -835,7 +900,7 @@ class Prop:
             if obs == [-1]: return ('panic', 'api')
             rel = self.relations(c)
             if not any(set(t) & {'exact', 'covering', 'more_specific'} for t in rel): return None
-            return ('api', tuple(rel), tuple((ob[0][0][0] if ob and ob[0] else -1) for ob in obs))
+            return ('api', tuple(rel), tuple(tuple(c.get('paths') or ())), tuple((ob[0][0][0][0] if ob[0] and ob[0][0] else -1) for ob in obs))
         if obs == [-1]: return ('panic', tuple(o[0] for o in c['ops']))
         rel = self.relations(c)
         interesting = any(set(t) & {'exact', 'covering', 'more_specific'} for t in rel)
@@ -861,7 +926,11 @@ class Prop:
         if c.get('kind') == 'api':
             tags.append('api_annotation')
             for ob in (obs if obs != [-1] else []):
-                tags.append('api_state_%s' % ('unlisted' if ob == [] else 'none' if ob[0] == [] else ['NotFound', 'Valid', 'Invalid'][ob[0][0][0]]))
+                g = ob[0]
+                tags.append('api_state_%s' % ('unlisted' if g == [] else 'none' if g[0] == [] else ['NotFound', 'Valid', 'Invalid'][g[0][0][0]]))
+            if c.get('paths'):
+                from collections import Counter
+                tags.append('api_paths_per_prefix_%d' % max(Counter(r[0] for r in c['routes']).values()))
             return sorted(set(tags))
         fams = {o[1][0] for o in c['ops'] if o[0] == 'val'}
         tags += ['val_ipv%d' % f for f in sorted(fams)]
@@ -882,7 +951,7 @@ class Prop:
 
 Prop.required_theorems = [
     'validate_code_eq_rfc6811_outside_known', 'validate_code_eq_rfc6811_refuted', 'validate_none_iff_known',
-    'validate_matched_exact', 'noncovering_vrps_irrelevant', 'policy_condition_eq_rfc6811_outside_known', 'policy_condition_known', 'handover_iff_rpki_policy', 'assignment_accepts_iff_state_outside_known', 'origin_code_eq_rfc6811',
+    'validate_matched_exact', 'noncovering_vrps_irrelevant', 'policy_condition_eq_rfc6811_outside_known', 'policy_condition_known', 'handover_iff_rpki_policy', 'assignment_accepts_iff_state_outside_known', 'api_annotation_per_path_outside_known', 'origin_code_eq_rfc6811',
     'rfc6811_state_characterised', 'mask_bytes_eq_prefix_bits',
     'vrp_table_refines_set', 'vrp_history_refines_set', 'iter_lists_installed',
     'validate_pre_refuted_covering', 'validate_pre_refuted_more_specific', 'validate_pre_refuted_as_set',
